@@ -10,62 +10,5 @@ pub open spec fn fullbox_at(d: Seq<u8>, p: int, version: u8, flags: u32) -> bool
 
 pub open spec fn flags_wire(flags: u32) -> bool { flags < 0x1000000 }
 
-// ---- stts: 14496-12 section 8.6.1.2   TimeToSampleBox extends FullBox('stts', 0, 0)
-//   unsigned int(32) entry_count; { unsigned int(32) sample_count; unsigned int(32) sample_delta; } [entry_count]
-pub open spec fn stts_len(b: SttsBox) -> int { 16 + 8 * (b.entries@.len() as int) }
-
-/// every field fits the width the format gives it
-pub open spec fn stts_fields_wire(b: SttsBox) -> bool {
-    flags_wire(b.flags) && b.entries@.len() <= 0xffff_ffff
-}
-
-/// ... and the whole box uses the compact header form (boxes over 4 GiB: see DESIGN D-20)
-pub open spec fn stts_wire(b: SttsBox) -> bool {
-    stts_fields_wire(b) && stts_len(b) <= 0xffff_ffff
-}
-
-pub open spec fn stts_entries_at(d: Seq<u8>, p: int, e: Seq<SttsEntry>, n: int) -> bool {
-    forall|j: int| 0 <= j < n ==> be32(d, p + 16 + 8 * j) == (#[trigger] e[j]).sample_count
-                               && be32(d, p + 20 + 8 * j) == e[j].sample_delta
-}
-
-pub open spec fn stts_at(d: Seq<u8>, p: int, b: SttsBox) -> bool {
-    &&& fullbox_at(d, p, b.version, b.flags)
-    &&& be32(d, p + 12) == b.entries@.len()
-    &&& stts_entries_at(d, p, b.entries@, b.entries@.len() as int)
-}
-
-pub proof fn lemma_stts_functional(d: Seq<u8>, p: int, a: SttsBox, b: SttsBox)
-    requires stts_at(d, p, a), stts_at(d, p, b), stts_fields_wire(a), stts_fields_wire(b)
-    ensures a.version == b.version, a.flags == b.flags, a.entries@ == b.entries@
-{
-    assert(a.entries@.len() == b.entries@.len());
-    assert forall|j: int| 0 <= j < a.entries@.len() implies a.entries@[j] == b.entries@[j] by {
-        assert(a.entries@[j].sample_count == b.entries@[j].sample_count);
-    }
-    assert(a.entries@ =~= b.entries@);
-}
-
-// reference encoder (same standard, other direction): the bytes of a whole stts box
+/// reference encoder of the FullBox header
 pub open spec fn fullbox_bytes(version: u8, flags: u32) -> Seq<u8> { seq![version] + be_bytes(flags as nat, 3) }
-
-pub open spec fn stts_prefix(b: SttsBox, n: int) -> Seq<u8>
-    decreases n
-{
-    if n <= 0 {
-        hdr_bytes(stts_len(b) as u64, 0x73747473) + fullbox_bytes(b.version, b.flags) + be_bytes(b.entries@.len(), 4)
-    } else {
-        stts_prefix(b, n - 1) + be_bytes(b.entries@[n - 1].sample_count as nat, 4) + be_bytes(b.entries@[n - 1].sample_delta as nat, 4)
-    }
-}
-
-pub open spec fn stts_bytes(b: SttsBox) -> Seq<u8> { stts_prefix(b, b.entries@.len() as int) }
-
-pub broadcast proof fn lemma_stts_prefix_len(b: SttsBox, n: int)
-    requires stts_wire(b), 0 <= n
-    ensures (#[trigger] stts_prefix(b, n)).len() == 16 + 8 * n
-    decreases n
-{
-    broadcast use group_stream;
-    if n > 0 { lemma_stts_prefix_len(b, n - 1); }
-}
